@@ -13,6 +13,10 @@ without / with unusable EndOfSequence and EnumerationContext).  Per call the exp
 traditional operation on a second connection object to the same mock server
 that never runs an Iter... operation, and the same Iter... call is also made
 on a brand-new connection object (same use_pull_operations) to that server.
+For a share of the histories and matrix cases the server side hands out a
+new enumeration context value with every Open/Pull response and refuses any
+other value ('rotating contexts', legal per DSP0200; pywbem_mock keeps the
+value constant over a session).
 Sub-check errmatrix enumerates 'error in the middle' completely: all 7 Iter
 operations x use_pull_operations {None, True} x every kind of failure x
 position of the failing request x server keeps / closes the enumeration.
@@ -40,7 +44,12 @@ RULE = (
     "association C15_Link with a hub instance on either side, C15_X in a "
     "second namespace; every instance count drawn from 0..12) x "
     "use_pull_operations in {None, True, False} x initial server pull "
-    "support, then up to N steps on ONE connection: call (6 generator Iter "
+    "support x server keeps the enumeration context value of a session "
+    "(60%) / hands out a new value with every Open/Pull response and "
+    "refuses stale ones with CIM_ERR_INVALID_ENUMERATION_CONTEXT (40%, "
+    "class rotating-contexts; rotating-contexts:<op>:>=2-pulls = a Pull "
+    "had to carry the context of a Pull response, rotating-contexts:close-"
+    "with-context-of-a-pull-response likewise for CloseEnumeration), then up to N steps on ONE connection: call (6 generator Iter "
     "operations [+ IterQueryInstances in sub-check query]; targets = every "
     "class / hub and ordinary instances / non-existing class, instance, "
     "namespace; class names and namespaces in other lexical case, with "
@@ -63,8 +72,10 @@ RULE = (
     "closing the enumeration), toggle (server pull support switched), "
     "resume.  errmatrix: all 7 Iter operations (incl. IterQueryInstances) "
     "x use_pull {None, True} x 2 CIM status codes + the 7 non-CIM failures "
+    "x constant / rotating context values "
     "x failing request = 1st Pull, 2nd Pull, Open (thorough: also the last "
     "Pull, result sizes 4 and 7) x server keeps / closes the enumeration, "
+    "plus one undisturbed call at the end, "
     "MaxObjectCount 1, enumerated completely (one history per operation x "
     "use_pull x failure, so the first call meets an undetermined family "
     "and the later ones a decided one); evidence classes error-in-the-"
@@ -74,8 +85,10 @@ RULE = (
     "matrix: all 6 generator operations x use_pull {None, True, "
     "False} x server pull {on, off} x result size 0..6 (thorough: 0..12) x "
     "MaxObjectCount 1..size+1 x {exhaust, close after 1, drop after 1} "
-    "(thorough: also close after 0 / size-1, drop after size), enumerated "
-    "completely.  Non-trivial history = it contains a call that made >= 2 "
+    "(thorough: also close after 0 / size-1, drop after size), and every "
+    "case that makes at least one Pull request (use_pull not False, server "
+    "pull on, MaxObjectCount < size) also with rotating context values, "
+    "enumerated completely.  Non-trivial history = it contains a call that made >= 2 "
     "Open/Pull round trips, or a call made after the connection's knowledge "
     "about pull support changed (a call that decided an undetermined "
     "family, or a server toggle after a decided family), or an enumeration "
@@ -159,6 +172,18 @@ ASSUMPTIONS = [
     "server: the client still knows the context of the last good response. "
     "Exception: a spoiled response to the Open request never told the "
     "client a context, so the wrapper removes that context itself",
+    "rotating contexts: DSP0200 makes the EnumerationContext an opaque "
+    "value that the client must take from the previous response of the "
+    "session ('the enumeration context value may change with every "
+    "response'); the wrapper around conn._imethodcall replaces the value "
+    "in every Open/Pull response of the mock by a new one, maps it back "
+    "on the next Pull/CloseEnumeration request and answers a request with "
+    "any other value with CIM_ERR_INVALID_ENUMERATION_CONTEXT (the session "
+    "stays open).  Results, errors and clean-up must be the same as with "
+    "constant values.  A response spoiled by an injected 'rsp-...' failure "
+    "does not rotate the value (the client could not learn the new one; "
+    "the value it knows stays valid so that the clean-up clause remains "
+    "checkable).  Fresh / second connections talk to the server directly",
     "the server's context table is read through "
     "conn._mainprovider.enumeration_contexts (keys only); with suspended "
     "enumerations it may hold at most one context per suspended one",
@@ -186,6 +211,10 @@ SENSITIVITY = [
     "IterEnumerateInstancePaths: the same mutation (clean-up only for "
     "CIMError) -> errmatrix/context-leak:after-non-CIM-error, history/"
     "context-leak:after-non-CIM-error, and :after-close / :after-drop",
+    "IterReferenceInstances sends every Pull with the context of the Open "
+    "response (/tmp/seeded_out/C15/change6.diff) -> matrix/, errmatrix/, "
+    "history/rotating-contexts:PullInstancesWithPath-with-stale-context:"
+    "RefInst",
     "IterEnumerateInstances fallback no longer sets path.host -> "
     "history/path-host:EnumInst:trad:missing",
     "IterEnumerateInstancePaths fallback no longer sets path.host -> "
@@ -511,6 +540,7 @@ def g_init(draw, query=False):
                                               False])),
             'disabled': draw(st.sampled_from([None, False, False, True,
                                               True])),
+            'rotate': draw(S._I100) < 40,
             'query': query}
 
 
@@ -699,6 +729,7 @@ class Rec:
         self.inject = None
         self.injected = False
         self.open_at_error = False  # server still held the context then
+        self.stale = []           # requests refused for a stale context
         self.bad_moc = False
         self.kwargs = None
         self.e_trad = None        # ('ok', Counter) | ('err', code)
@@ -737,6 +768,10 @@ class Machine:
         self.knowledge_changed = False
         self.unraisable = []
         self._old_hook = None
+        self.rotate = False       # server hands out a new context value
+        self.ctxmap = {}          # with every response: current value -> key
+        self.ctxgen = {}          # server key -> number of values issued
+        self.ctxseq = 0
 
     # ---- generation ------------------------------------------------------
 
@@ -769,6 +804,9 @@ class Machine:
         self._install_tap(self.conn)
         self._old_hook = sys.unraisablehook
         sys.unraisablehook = self._unraisable
+        self.rotate = bool(init.get('rotate'))
+        if self.rotate:
+            self.classes.add('rotating-contexts')
         self.classes.add('use_pull=%s' % init['use_pull'])
         self.classes.add('server-pull-initially-%s' %
                          ('on' if self.enabled else 'off'))
@@ -798,10 +836,38 @@ class Machine:
         orig = conn._imethodcall  # pylint: disable=protected-access
         m = self
 
+        def serve(methodname, namespace, *args, **kw):
+            "the server; rotating contexts: a new value with every response"
+            result = orig(methodname, namespace, *args, **kw)
+            if m.rotate and methodname.startswith(('Open', 'Pull')):
+                result = m._rotate(result)
+            return result
+
         def tap(methodname, namespace, *args, **kw):
             rec = m.active
             if rec is not None:
                 rec.requests.append(methodname)
+            if m.rotate and 'EnumerationContext' in kw:
+                # only the value of the latest response names the session
+                value = kw['EnumerationContext']
+                key = m.ctxmap.get(value)
+                if key is None:
+                    if rec is not None:
+                        rec.stale.append(methodname)
+                    raise CIMError(
+                        INVALID_CONTEXT, 'harness server with rotating '
+                        'contexts: %r is not the enumeration context of the '
+                        'latest response of an open session' % (value,))
+                kw = dict(kw, EnumerationContext=key)
+                if m.ctxgen.get(key, 0) >= 2:
+                    m.classes.add('rotating-contexts:%s-with-context-of-a-'
+                                  'pull-response' % (
+                                      'pull' if methodname.startswith('Pull')
+                                      else 'close'))
+                    if rec is not None and methodname.startswith('Pull'):
+                        m.classes.add('rotating-contexts:%s:>=2-pulls' %
+                                      SHORT[rec.which])
+            if rec is not None:
                 if methodname.startswith(('Open', 'Pull')):
                     idx = rec.session_requests
                     rec.session_requests += 1
@@ -809,8 +875,29 @@ class Machine:
                     if inj and not rec.injected and idx == inj['at']:
                         return m._inject(rec, inj, orig, methodname,
                                          namespace, args, kw)
-            return orig(methodname, namespace, *args, **kw)
+            return serve(methodname, namespace, *args, **kw)
         conn._imethodcall = tap  # pylint: disable=protected-access
+
+    def _rotate(self, result):
+        """
+        Open/Pull response with a brand-new EnumerationContext value (DSP0200:
+        the client passes on the context of the previous response; a server
+        may change the value with every response).  The old value of the
+        session is forgotten.
+        """
+        out = []
+        for item in result or []:
+            if item[0] == 'EnumerationContext' and item[2]:
+                key = item[2]
+                for value in [v for v, k in self.ctxmap.items() if k == key]:
+                    del self.ctxmap[value]
+                self.ctxseq += 1
+                value = 'rot-%d-of-%s' % (self.ctxseq, key)
+                self.ctxmap[value] = key
+                self.ctxgen[key] = self.ctxgen.get(key, 0) + 1
+                item = (item[0], item[1], value)
+            out.append(item)
+        return out
 
     def _inject(self, rec, inj, orig, methodname, namespace, args, kw):
         """
@@ -823,7 +910,10 @@ class Machine:
         key = kw.get('EnumerationContext') if pull else None
         if what in RSP_KINDS:
             known = set(self.table)
-            # an error of the server itself is not an injected one
+            # an error of the server itself is not an injected one.  With
+            # rotating contexts: a response the client cannot use does not
+            # rotate (the value the client knows stays the valid one), an
+            # error answer carries no context at all
             result = orig(methodname, namespace, *args, **kw)
             rec.injected = True
             result = _mangle_response(result, what)
@@ -1204,7 +1294,9 @@ class Machine:
                 rec.which, ', '.join('%s=%r' % kv for kv in sorted(
                     a.items(), key=lambda kv: kv[0])),
                 self.init['use_pull'],
-                'enabled' if rec.enabled else 'disabled',
+                ('enabled' if rec.enabled else 'disabled') +
+                (', new enumeration context value with every response'
+                 if self.rotate else ''),
                 rec.flag_before, rec.via)
 
     # ---- judging ---------------------------------------------------------
@@ -1389,6 +1481,14 @@ class Machine:
             elif sticky:
                 sig = ('sticky-pull-flag:NOT_SUPPORTED-after-server-lost-pull-'
                        'though-fresh-connection-falls-back')
+            elif rec.stale and isinstance(status, CIMError) and \
+                    status.status_code == INVALID_CONTEXT:
+                # the rotating-contexts server refused a request of this
+                # call: it did not carry the context of the latest response
+                sig = 'rotating-contexts:%s-with-stale-context:%s' % (
+                    rec.stale[0], op)
+                detail += '\n requests: %r, refused as stale: %r' % (
+                    rec.requests, rec.stale)
             elif rec.which == QUERY and isinstance(status, CIMError) and \
                     status.status_code == INVALID_CONTEXT and via == 'pull':
                 sig = ('query:mock-refuses-PullInstances-after-'
@@ -1447,6 +1547,8 @@ class Machine:
         n = len(self.table)
         allowed = len(self.suspended) + self.leak_base
         if n > allowed:
+            if 'CloseEnumeration' in rec.stale:
+                after += ':CloseEnumeration-with-stale-context'
             self.fail('context-leak:after-%s' % after,
                       '%s: %d enumeration contexts on the server, %d '
                       'suspended enumerations; requests of the call: %r' %
@@ -1642,13 +1744,19 @@ def _matrix_cases(thorough=False):
                     for moc in range(1, size + 2):
                         for consume in patterns:
                             yield (which, up, disabled, size, moc, consume)
+                            if up is not False and not disabled and \
+                                    moc < size:
+                                # at least one Pull request is made: also
+                                # against the rotating-contexts server
+                                yield (which, up, disabled, size, moc,
+                                       consume, 'rotate')
 
 
 def _matrix_example(case):
-    which, up, disabled, size, moc, consume = case
+    which, up, disabled, size, moc, consume = case[:6]
     init = {'nbase': 0, 'nmid': 0, 'nleaf': 0, 'nother': 0, 'nx': 0,
             'hub': 0, 'rev': 0, 'use_pull': up, 'disabled': disabled,
-            'query': False}
+            'rotate': len(case) > 6, 'query': False}
     a = {}
     if which in ENUM_OPS:
         init['nbase'] = size
@@ -1702,14 +1810,15 @@ def _errmatrix_cases(thorough=False):
         for up in (None, True):
             for what in _ERR_WHAT:
                 for size in ((4, 7) if thorough else (4,)):
-                    yield (which, up, what, size)
+                    for rotate in (False, True):
+                        yield (which, up, what, size, rotate)
 
 
 def _errmatrix_example(case, thorough=False):
-    which, up, what, size = case
+    which, up, what, size, rotate = case
     init = {'nbase': 0, 'nmid': 0, 'nleaf': 0, 'nother': 0, 'nx': 0,
             'hub': 0, 'rev': 0, 'use_pull': up, 'disabled': False,
-            'query': which == QUERY}
+            'rotate': rotate, 'query': which == QUERY}
     a = {}
     if which == QUERY:
         init['nbase'] = size
@@ -1733,6 +1842,9 @@ def _errmatrix_example(case, thorough=False):
               'consume': ('all',),
               'inject': {'at': at, 'what': what, 'mode': mode}}
              for at in ats for mode in ('keep', 'drop')]
+    # and one undisturbed call behind the failed ones (3 or more Pulls)
+    steps.append({'op': 'call', 'which': which, 'args': dict(a),
+                  'consume': ('all',), 'inject': None})
     return (init, steps)
 
 
